@@ -1,5 +1,5 @@
 """Per-property checks."""
-import os, json, collections, itertools, re
+import os, json, collections, itertools, re, subprocess
 import vcheck
 from vcheck import harness_run, proof_obligations, finish, write_replay, load_known
 
@@ -1319,6 +1319,20 @@ def c20(ctx):
     helper_compare(ctx, 'filler', 3000 if q else 60000, st, distinct)
     helper_compare(ctx, 'saveto', 300 if q else 5000, st, distinct)
     helper_compare(ctx, 'postact', 3000 if q else 60000, st, distinct)
+    # WithMethodCall: the builder with the method call against its twin (plain builder + an ordinary provider calling the method)
+    hb, log = vcheck.build_harness(ctx)
+    if hb is not None:
+        p = subprocess.run([hb, 'methodcall', '-seed', str(ctx.seed), '-n', '1'], stdout=subprocess.PIPE, stderr=subprocess.PIPE, text=True, timeout=600)
+        for l in p.stdout.split('\n'):
+            tk = l.split()
+            if len(tk) < 3 or tk[0] != 'mcall':
+                continue
+            st['methodcall-' + tk[2]] += 1
+            if tk[2] != 'same':
+                ctx.violations.append(('MakeStructBuilder(WithMethodCall) differs from the plain builder followed by a provider calling the method: %s' % ' '.join(tk[1:])[:300],
+                                       write_replay(ctx, 'methodcall_%s.txt' % tk[1], l + '\n# replay: harness methodcall'), True))
+            else:
+                distinct.add(('methodcall', tk[1]))
     cases = load_cases(ctx, 'refl', 1200 if q else 15000)
     for c in cases or []:
         for l in pair_lines(c):
@@ -1336,7 +1350,7 @@ def c20(ctx):
     ctx.cov['distinct_nontrivial'] = len(distinct)
     ctx.cov['traces_validated_against_impl'] = sum(v for k, v in st.items() if k.endswith(('-agree', '-same')))
     ctx.cov['outcomes'] = dict(st)
-    ctx.assumptions += ['post-actions are modelled for flat structs; WithMethodCall and FillExisting only by the repository tests',
+    ctx.assumptions += ['post-actions are modelled for flat structs; WithMethodCall is exercised as twins (six hand-written scenarios), not modelled',
                         'reflect.StructOf cannot create embedded (anonymous) fields with methods; embedded structs are generated as named nested fields',
                         'the value a generated provider is fed for each requested type is C01']
     if len(ctx.violations) > 5:
